@@ -352,6 +352,7 @@ func (g *FnGen) run() {
 	}
 	g.init = g.cur.clone()
 	g.init.epoch = g.cur.epoch
+	g.addCover("entry", "entry")
 	// cover obligation: requires + type invariants satisfiable (must be SAT)
 	order := rpo(fn)
 	g.processBlocks(order, nil)
@@ -832,6 +833,7 @@ func (g *FnGen) ret(i *ssa.Return) {
 	}
 	idx := g.retIdx
 	g.retIdx++
+	g.addCover("ret", fmt.Sprintf("ret%d", idx))
 	for k, c := range g.fc.Ensures {
 		name := fmt.Sprintf("post#%d@ret%d", k, idx)
 		if c.Label != "" {
